@@ -140,6 +140,12 @@ def case_classes(c):
     chain = (ds[1]['sk'], ds[1]['sp']) == (ds[0]['tk'], ds[0]['tp'])
     miss  = tuple(d['sp'] == 'm' for d in ds)
     ks.append(('pair', nin, ds[0]['act'], ds[1]['act']))
+    # both directives can be carried out and name different places: the second one must not be
+    # lost behind the first (round 6, C11-k: only the first TARBALL source was packed)
+    if not any(miss):
+        ks.append(('pairboth', nin, ds[0]['act'], ds[1]['act'],
+                   (ds[0]['tk'], ds[0]['tp']) == (ds[1]['tk'], ds[1]['tp']),
+                   (ds[0]['sk'], ds[0]['sp']) == (ds[1]['sk'], ds[1]['sp'])))
     if chain:
         ks.append(('chain', ds[0]['act'], ds[1]['act'], any(miss)))
     if any(miss):
